@@ -23,9 +23,9 @@ TRUSTED = ["fake multiprocessing / clock / kill (harness/impl/fake_mp.py) under 
            "real-process scripts (thorough tier) are checked by the direct predicate only; a timing anomaly must "
            "reproduce three times"]
 
-ALPHA = ["equal", "different", "player_raises", "extractor_raises", "exit0", "exit1", "hang", "hang_deaf", "drops",
+ALPHA = ["equal", "different", "player_raises", "extractor_raises", "exit0", "exit1", "hang", "hang_deaf",
          "slow:1", "slow:2", "slow:3", "slow:4", "slow:5"]
-W = [22, 3, 3, 3, 9, 9, 10, 8, 6, 3, 3, 3, 3, 2]
+W = [22, 3, 3, 3, 9, 9, 10, 8, 3, 3, 3, 3, 2]
 
 
 def generate(rng, tier):
@@ -48,10 +48,10 @@ def generate(rng, tier):
     # probe stream for the known finding F08: a late answer can make the run block forever / leak a hung worker
     n_probe = 20 if tier == "quick" else 300
     for k in range(n_probe):
-        ids, behs = G.rand_script(rng, ALPHA + G.F08_BEH, W + [30, 20], 8, dup=0.0)
+        ids, behs = G.rand_script(rng, ALPHA + G.F08_BEH, W + [30, 20, 20], 8, dup=0.0)
         if not any(b in G.F08_BEH for b in behs):
             ids.append(max(ids + [0]) + 1)
-            behs.append(G.F08_BEH[k % 2])
+            behs.append(G.F08_BEH[k % 3])
         cases.append(G.mk(ids, behs, rate=rng.choice([1, 1, 2, 3]), timeout=rng.choice([1, 2]),
                           consume=G.rand_consume(rng, len(ids)), probe="F08"))
     cases.append(G.mk([1, 2, 3], ["late", "hang", "equal"], rate=1, probe="F08"))     # the refuted theorem's witness
@@ -64,7 +64,7 @@ def generate(rng, tier):
 def to_gallina(case, obs):
     if case.get("kind") == "real":
         return None
-    bad = "Case %s [] Full (Trace [] [] [] (0%%nat, 0%%nat) false 0%%nat FuelOut)" % G.g_cfg(case)
+    bad = "Case %s [] Full (Trace [] [] [] (0%%nat, 0%%nat) false false 0%%nat FuelOut)" % G.g_cfg(case)
     if "driver_exception" in obs:
         return bad
     try:
@@ -72,8 +72,9 @@ def to_gallina(case, obs):
                          for (_, served, s0, s1) in obs["workers"]])
         events = glist([gpair(gnat(G.EVENT_CODE[k]), gnat(p)) for k, p in obs["events"]])
         out = G.OUTCOMES[obs["outcome"]]
-        tr = "(Trace %s %s %s %s %s %s %s)" % (glist([gnat(p) for p in obs["polls"]]), workers, events,
-                                             gpair(gnat(obs["left"][0]), gnat(obs["left"][1])), gbool(obs["term"]),
+        tr = "(Trace %s %s %s %s %s %s %s %s)" % (glist([gnat(p) for p in obs["polls"]]), workers, events,
+                                             gpair(gnat(obs["left"][0]), gnat(obs["left"][1])), gbool(obs["lock"]),
+                                             gbool(obs["term"]),
                                              gnat(obs["clock"]), out)
     except (KeyError, TypeError, AssertionError):
         return bad       # something the model cannot express (e.g. an ignored SIGTERM): force a mismatch
